@@ -153,11 +153,13 @@ pub fn worker<P: Property>(args: &[String]) -> i32 {
             let nontrivial = rr.ledger.any_fault_fired();
             if nontrivial {
                 hashes.insert(rr.log_hash);
-                if w.samples.len() < 3 {
+                let scn_json = if w.samples.len() < 3 { serde_json::to_value(&scn).ok() } else { None };
+                // samples are for reading: skip scenarios whose text would fill pages
+                if let Some(sj) = scn_json.filter(|v| v.to_string().len() <= 3000) {
                     w.samples.push(Sample {
                         index,
                         kind: kind.to_string(),
-                        scenario: serde_json::to_value(&scn).unwrap(),
+                        scenario: sj,
                         fired: rr.ledger.to_map(),
                         oracles_applied: rr.oracles.keys().map(|k| k.to_string()).collect(),
                         event_log_hash: format!("{:016x}", rr.log_hash),
